@@ -124,8 +124,9 @@ def check_node_status(ck, cr, rule):
     if not top:
         raise mir.AnchorMissing("checkpoint_node_status: match on object_type not found")
     b0, dv = top
-    want = {"Pair": [("NodePtr::index(node)", "checkpoint.pairs")],
-            "Bytes": [("NodePtr::index(node)", "checkpoint.atoms"), (".start", "checkpoint.u8s")]}
+    # parameters by position (self, checkpoint, node): $2 is the checkpoint, $3 the node - whatever they are called
+    want = {"Pair": [("NodePtr::index($3)", "$2.pairs")],
+            "Bytes": [("NodePtr::index($3)", "$2.atoms"), (".start", "$2.u8s")]}
     for tgt, v in f.succ(b0):
         if v == "otherwise":
             continue
@@ -137,7 +138,7 @@ def check_node_status(ck, cr, rule):
             if f.term(b)["k"] == "switch":
                 n = compare_norm(f.switch_cond(b))
                 if n:
-                    tests.append(n)
+                    tests.append((f.unparam(n[0]), n[1], n[2]))
             for st in f.stmts(b):
                 d = st.get("d")
                 if d and d["l"] == 0 and not d["p"]:
